@@ -1,6 +1,7 @@
 import BigtreeModel.Export
 import BigtreeModel.Newick
 import BigtreeProofs.Lemmas.ExportRoundtrip
+import BigtreeProofs.Lemmas.ExportRows
 import BigtreeProofs.Lemmas.NewickRoundtrip
 /-!
 # C06 — exports are complete; export ∘ import = identity
@@ -93,6 +94,36 @@ theorem nested_roundtrip (anc : List Str) (t : Tree) (h : AllNodes NodeOK t) :
   simp only [fullOpts, cutDepth_zero, Option.bind_some]
   exact nestedToTree_mirror [] t h
 
+/-- `dataframe_to_tree (tree_to_dataframe t, all_attrs=True)` (the same for polars): the rebuilt
+tree has the names, shape and sibling order of `t`; each node's attributes are what its row gives
+back (`rowAttrs`: per column in order, the node's public attribute unless null) — by
+`rows_roundtrip_attrs` that is, as a map, exactly the node's public non-null attributes.
+`pc` is the path column; it must not be an attribute name of the tree. -/
+theorem rows_roundtrip (sep : Char) (pc : Str) (t : Tree) (hpc : pc ≠ [] ∧ pc ≠ strName)
+    (h1 : AllNodes NodeOK t) (h2 : AllNodes (SepFree sep) t)
+    (h3 : AllNodes (fun u => pc ∉ u.attrs.map Prod.fst) t) :
+    rowsToTree sep (frame (treeToRows (fullOpts pc) sep [] t))
+      = some (canonWith (rowAttrs pc (columnsOf (treeToRows (fullOpts pc) sep [] t))) t) := by
+  cases t with
+  | node i n a cs => exact rowsToTree_full sep pc i n a cs hpc h1 h2 h3
+
+/-- the attributes read back from the DataFrame agree, key by key, with the node's public
+attributes (a null value and a missing attribute are not distinguished by a DataFrame). -/
+theorem rows_roundtrip_attrs (sep : Char) (pc : Str) (t : Tree) (hpc : pc ≠ [] ∧ pc ≠ strName)
+    (h1 : AllNodes NodeOK t) (h3 : AllNodes (fun u => pc ∉ u.attrs.map Prod.fst) t)
+    (x : List Str × Tree) (hx : x ∈ preCtx [] t) (k : Str) :
+    getAttr (rowAttrs pc (columnsOf (treeToRows (fullOpts pc) sep [] t)) x.2.attrs) k
+      = getAttr (describe x.2.attrs) k := by
+  rw [treeToRows_full sep pc t [] hpc h1 h3]
+  apply rowAttrs_get pc _ _ (columnsOf_nodup _)
+  · intro k' hk'
+    apply columnsOf_mem _ (fullRow sep pc x) k' (List.mem_map.mpr ⟨x, hx, rfl⟩)
+    simp only [fullRow, List.map_cons, List.mem_cons]
+    exact Or.inr (Or.inr hk')
+  · intro hmem
+    obtain ⟨kv, hkv, hk⟩ := List.mem_map.mp hmem
+    exact allNodes_preCtx _ t [] h3 x hx (List.mem_map.mpr ⟨kv, describe_mem _ _ hkv, hk⟩)
+
 /-! ## non-vacuity -/
 
 /-- a five-node tree with hostile names and attributes -/
@@ -112,6 +143,10 @@ example : (treeToRows { pathCol := "path".toList, skipDepth := 1, leafOnly := tr
 example : dictToTree '/' (treeToDict (fullOpts []) '/' [] exTree) = some (canon exTree) :=
   dict_roundtrip '/' exTree exTree_ok exTree_sepfree
 example : canon exTree ≠ .node 0 "a".toList [] [] := by decide
+example : rowsToTree '/' (frame (treeToRows (fullOpts "path".toList) '/' [] exTree)) =
+    some (.node 0 "a".toList [("A".toList, .str "x y".toList), ("B".toList, .int 3)] [
+      .node 0 "b (c)".toList [] [.node 0 "a".toList [] []],
+      .node 0 "c:d".toList [("A".toList, .int 0)] [.node 0 "b (c)".toList [] []]]) := by decide
 example : (treeToNested { maxDepth := 2 } [] exTree).map (fun x => x.kids.length) = some 2 := by decide
 example : (treeToNested (fullOpts []) [] exTree).bind (nestedToTree strName) = some (canon exTree) :=
   nested_roundtrip [] exTree exTree_ok
